@@ -1,7 +1,7 @@
 (* C08 — proofs about the composed system of Conc/TlsDuplex.v: two pumps over the ideal record layer joined by a
    fragmenting, delaying network.  pump_transparent (both directions, all interleavings), lock mutual exclusion. *)
 From Coq Require Import ZArith List Bool Lia ZifyBool.
-From EN Require Import Lib.Bytes Conc.TlsBase Conc.TlsPump Conc.IdealTls Conc.TlsDuplex Proofs.C08_proofs Proofs.Ideal_proofs.
+From EN Require Import Lib.Bytes Conc.TlsBase Conc.TlsPump Conc.IdealTls Conc.TlsDuplex Gen.ParamsC08 Proofs.C08_proofs Proofs.Ideal_proofs.
 
 (* ------------------------------------------------------------------ facts about one pump step *)
 
@@ -10,7 +10,7 @@ Lemma step_desync_only_on_mismatch : forall m b s p l s' p' a,
   exists x, l = LSsl x /\ p = PCall /\ (meth_eqb (a_meth x) m && Nat.eqb (a_arg x) (expected_arg m b s)) = false.
 Proof.
   intros m b s p l s' p' a H Hin.
-  destruct p as [ | k | k | | | r]; destruct l as [x | | t]; cbv beta iota delta [step] in H; try discriminate.
+  destruct p as [ | k | k | sn | | r]; destruct l as [x | | t]; cbv beta iota delta [step] in H; try discriminate.
   - destruct (meth_eqb (a_meth x) m && Nat.eqb (a_arg x) (expected_arg m b s)) eqn:Ck; cbn [negb] in H.
     + exfalso. cbv zeta in H. destruct (a_out x).
       * destruct m; try (inversion H; subst; cbn in Hin; intuition discriminate; fail).
@@ -29,7 +29,7 @@ Proof.
     + inversion H; subst; cbn in Hin; intuition discriminate.
     + destruct k; inversion H; subst; cbn in Hin; intuition discriminate.
     + inversion H; subst; cbn in Hin; intuition discriminate.
-  - exfalso. unfold go in H. destruct (recv_lock s); inversion H; subst; cbn in Hin; intuition discriminate.
+  - exfalso. go_recv H sn; inversion H; subst; cbn in Hin; intuition discriminate.
   - exfalso. destruct t; inversion H; subst; cbn in Hin; intuition discriminate.
   - exfalso. destruct t as [d | | | | bt]; try discriminate; cbv zeta in H.
     + destruct d; inversion H; subst; cbn in Hin; intuition discriminate.
@@ -58,7 +58,7 @@ Lemma step_deque : forall m b s p l s' p' a,
   step m b s p l = Some (s', p', a) -> deque s' = deque_after m b s p l.
 Proof.
   intros m b s p l s' p' a H. unfold deque_after.
-  destruct p as [ | k | k | | | r]; destruct l as [x | | t]; cbv beta iota delta [step] in H; try discriminate.
+  destruct p as [ | k | k | sn | | r]; destruct l as [x | | t]; cbv beta iota delta [step] in H; try discriminate.
   - destruct (meth_eqb (a_meth x) m && Nat.eqb (a_arg x) (expected_arg m b s)); cbn [negb] in H.
     + cbv zeta in H. destruct (a_out x).
       * destruct m; try (inversion H; subst; reflexivity).
@@ -80,7 +80,7 @@ Proof.
     + inversion H; subst; reflexivity.
     + destruct k; inversion H; subst; reflexivity.
     + inversion H; subst; reflexivity.
-  - unfold go in H. destruct (recv_lock s); inversion H; subst; reflexivity.
+  - go_recv H sn; inversion H; subst; reflexivity.
   - destruct t; inversion H; subst; reflexivity.
   - destruct t as [d | | | | bt]; try discriminate; cbv zeta in H.
     + destruct d; inversion H; subst; reflexivity.
